@@ -1,6 +1,7 @@
 	// ===== engine K harnesses for rcgen/src/string.rs =====
 	// Alphabets: X.680 41.4 (PrintableString), 41 / T.50 (IA5String), and the property text
 	// (Teletex U+0020..U+007F, BMPString U+0000..U+FFFE, UniversalString any scalar value).
+	use crate::string::{BmpString, Ia5String, PrintableString, TeletexString, UniversalString};
 
 	fn printable_ok(c: char) -> bool {
 		matches!(c, 'A'..='Z' | 'a'..='z' | '0'..='9' | ' ' | '\'' | '(' | ')' | '+' | ',' | '-' | '.' | '/' | ':' | '=' | '?')
